@@ -291,8 +291,9 @@ _TOKEN_RE = re.compile(rb"\[ref: [0-9]+\] |ref = [0-9]+[;,] ")
 def token_strip(old, new):
     """If `new` is `old` plus inserted reference tokens only, return [(offset_in_old, token_bytes)], else None.
 
-    Backtracking over every token-shaped substring of `new` (include = it was inserted, exclude = it is part of
-    the original text), leftmost-insertion-first; memoised on (candidate index, bytes removed so far).
+    Backtracking (iterative depth-first search, so that files with tens of thousands of tokens do not hit the recursion limit) over
+    every token-shaped substring of `new`: include = it was inserted, exclude = it is part of the original text;
+    leftmost-insertion-first.
     """
     if old == new:
         return []
@@ -300,64 +301,40 @@ def token_strip(old, new):
         return None
     need = len(new) - len(old)
     cands = [(m.start(), m.end()) for m in _TOKEN_RE.finditer(new)]
-    # overlapping candidates cannot occur: each token starts with '[' or 'r' and ends with a blank
-    dead = set()
     n = len(cands)
-
-    import sys
-    sys.setrecursionlimit(max(sys.getrecursionlimit(), 20000))
-
-    def rec(i, removed, pos_new, acc):
-        # invariant: new[:pos_new] minus removed tokens == old[:pos_new-removed]
-        if removed == need:
-            if new[pos_new:] == old[pos_new - removed:]:
-                return acc
-            return None
-        if i >= n:
-            return None
-        if (i, removed) in dead:
-            return None
-        s, e = cands[i]
-        if s < pos_new:
-            return rec(i + 1, removed, pos_new, acc)
-        if new[pos_new:s] != old[pos_new - removed:s - removed]:
-            dead.add((i, removed))
-            return None
-        # include
-        if removed + (e - s) <= need:
-            r = rec(i + 1, removed + (e - s), e, acc + [(s - removed, new[s:e])])
-            if r is not None:
-                return r
-        # exclude: the candidate text must then be original text; verified lazily by the next segment comparison
-        r = rec(i + 1, removed, s, acc)
-        if r is None:
-            dead.add((i, removed))
-        return r
-
-    if n > 3000:
-        return _token_strip_iter(old, new, cands, need)
-    return rec(0, 0, 0, [])
-
-
-def _token_strip_iter(old, new, cands, need):
-    """Greedy-with-verification variant for very large files (thousands of tokens): include a candidate iff the
-    original text does not continue with the same bytes; falls back to None if the result does not verify."""
     acc = []
-    removed = 0
-    pos = 0
-    for s, e in cands:
-        if new[pos:s] != old[pos - removed:s - removed]:
-            return None
-        if old[s - removed:e - removed] == new[s:e] and new[e:e + 64] == old[e - removed:e - removed + 64]:
-            # candidate text is present in the original at this very place: treat as original
-            pos = s
-            continue
-        acc.append((s - removed, new[s:e]))
-        removed += e - s
-        pos = e
-    if removed != need or new[pos:] != old[pos - removed:]:
-        return None
-    return acc
+    stack = [(0, 0, 0, 0)]          # (candidate index, bytes removed, verified position in new, len(acc))
+    dead = set()
+    steps = 0
+    while stack:
+        i, removed, pos, alen = stack.pop()
+        del acc[alen:]
+        while True:
+            steps += 1
+            if steps > 5_000_000:
+                return None         # pathological ambiguity: give up (never observed)
+            if removed == need:
+                if new[pos:] == old[pos - removed:]:
+                    return list(acc)
+                break
+            if i >= n or (i, removed, pos) in dead:
+                break
+            s, e = cands[i]
+            if s < pos:
+                i += 1
+                continue
+            if new[pos:s] != old[pos - removed:s - removed]:
+                dead.add((i, removed, pos))
+                break
+            if removed + (e - s) <= need:
+                stack.append((i + 1, removed, s, len(acc)))        # alternative: the candidate is original text
+                acc.append((s - removed, new[s:e]))
+                removed += e - s
+                pos = e
+            else:
+                pos = s
+            i += 1
+    return None
 
 
 def line_col(data, off):
